@@ -115,10 +115,11 @@ Definition do_delete (st : sstate) (s : sid) : res sstate :=
 
 (* ---- PUT_COPY: is := copy of ref, keeping its place in the stream; no children; joins ref's parent's chain *)
 Definition do_putcopy (st : sstate) (s ref : sid) : res sstate :=
-  with_attr st s (fun _ => with_attr st ref (fun ra =>
+  with_attr st s (fun sa => with_attr st ref (fun ra =>
     (* a stale temp copy of a slot that was once attached to s still names s as its parent: the copy is then left unattached *)
     let par := match a_par ra with Some p => if (p =? s)%N then None else Some p | None => None end in
-    let st1 := upd_attr st s (mkattr (a_before ra) (a_after ra) (a_orig ra) (a_index ra) par [] false false) in
+    (* the copy keeps its own slot index (positioning passes run after the indices are assigned) *)
+    let st1 := upd_attr st s (mkattr (a_before ra) (a_after ra) (a_orig ra) (a_index sa) par [] false false) in
     match par with
     | Some p => with_attr st1 p (fun pa =>
                   Ok (upd_attr st1 p (mkattr (a_before pa) (a_after pa) (a_orig pa) (a_index pa) (a_par pa) (add_kid (a_kids pa) s) (a_copied pa) (a_deleted pa))))
